@@ -82,8 +82,8 @@ class Check:
     # ------------------------------------------------------------------ harness exploration
     def run(self, label, mod, cls, kw, time_cap=None, path_cap=None, required_witnesses=()):
         if self.args.only and self.args.only not in label: return None
-        tc = time_cap or (120 if self.tier == 'quick' else 1800)
-        pc = path_cap or (60000 if self.tier == 'quick' else 3000000)
+        tc = time_cap or (120 if self.tier == 'quick' else 900)
+        pc = path_cap or (60000 if self.tier == 'quick' else 4000000)
         kw = dict(kw); kw.setdefault('sample_rate', 0.01 if self.tier == 'quick' else 0.001)
         r = H.run_harness(self.ast_path, mod, cls, kw, seed=self.seed, workers=self.args.workers, time_cap=tc, path_cap=pc)
         r['label'] = label
